@@ -2,7 +2,9 @@
 C11 — determinism. Executable statements over the regenerated site table
 (`Irismod.Gen.Nondet`): every place in the modules' state-machine code that reads the host
 clock, a random source or the environment, ranges over a Go map, does floating-point math,
-or could hold process-local state in a keeper, must be on the reviewed allow-list below.
+could hold process-local state (a keeper field, a package-level variable written from a
+function, a `sync` primitive), starts a goroutine, sorts unstably, or touches `os` / `runtime` /
+`unsafe`, must be on the reviewed allow-list below.
 -/
 import Irismod.Gen.Nondet
 
@@ -25,6 +27,18 @@ def allowList : List Allowed := [
   ⟨"modules/nft/keeper/invariants.go", "SupplyInvariant", "map-range", "map[string]uint64", "crisis invariant message only; broken flag is order-independent"⟩,
   ⟨"modules/nft/migrations/v2/store.go", "Migrate", "clock", "time.Now", "migration duration, logged only"⟩,
   ⟨"modules/nft/migrations/v2/store.go", "Migrate", "clock", "time.Since", "migration duration, logged only"⟩,
+  ⟨"modules/nft/migrations/v2/keeper.go", "UnsafeBytesToStr", "env", "unsafe.Pointer", "zero-copy []byte -> string conversion in the v2 store migration; the value is the same as string(b)"⟩,
+  ⟨"modules/nft/migrations/v2/keeper.go", "UnsafeStrToBytes", "env", "unsafe.Pointer", "zero-copy string -> []byte conversion in the v2 store migration; the bytes are only read"⟩,
+  ⟨"modules/oracle/types/aggregate.go", "RegisterAggregateFunc", "package-var-write", "types.router", "aggregate-function registry filled at program initialisation (init) with the three built-ins; no caller at run time"⟩,
+  ⟨"modules/oracle/types/aggregate.go", "init", "package-var-write", "types.router", "as above"⟩,
+  ⟨"modules/token/types/v1/genesis.go", "GetNativeToken", "package-var-write", "v1.Initialized", "application constant: set once by the application before genesis or lazily to a fixed default; read only by DefaultParams / DefaultGenesisState (a genesis file is chain input)"⟩,
+  ⟨"modules/token/types/v1/genesis.go", "GetNativeToken", "package-var-write", "v1.nativeToken", "as above"⟩,
+  ⟨"modules/token/types/v1/genesis.go", "SetNativeToken", "package-var-write", "v1.Initialized", "as above (application wiring)"⟩,
+  ⟨"modules/token/types/v1/genesis.go", "SetNativeToken", "package-var-write", "v1.nativeToken", "as above (application wiring)"⟩,
+  ⟨"modules/token/types/v1beta1/genesis.go", "GetNativeToken", "package-var-write", "v1beta1.Initialized", "as v1"⟩,
+  ⟨"modules/token/types/v1beta1/genesis.go", "GetNativeToken", "package-var-write", "v1beta1.nativeToken", "as v1"⟩,
+  ⟨"modules/token/types/v1beta1/genesis.go", "SetNativeToken", "package-var-write", "v1beta1.Initialized", "as v1"⟩,
+  ⟨"modules/token/types/v1beta1/genesis.go", "SetNativeToken", "package-var-write", "v1beta1.nativeToken", "as v1"⟩,
   ⟨"modules/oracle/types/aggregate.go", "Avg", "float", "strconv.FormatFloat", "IEEE-754 add/div and shortest-decimal formatting are platform-independent (no fused multiply-add shape)"⟩,
   ⟨"modules/oracle/types/aggregate.go", "Max", "float", "math.SmallestNonzeroFloat64", "constant"⟩,
   ⟨"modules/oracle/types/aggregate.go", "Max", "float", "strconv.FormatFloat", "comparison and formatting only"⟩,
